@@ -53,10 +53,14 @@ def to_symbolic_model(model: Model) -> SymbolicModel:
             strict=True,
         )
     )
+    # All parameters, including those defined by initial assignments
+    parameter_values = {
+        k: cache.all_parameter_values[k] for k in model.get_parameter_names()
+    }
     parameters: dict[str, sympy.Symbol] = dict(
         zip(
-            model.get_parameter_values(),
-            cast(list[sympy.Symbol], list_of_symbols(model.get_parameter_values())),
+            parameter_values,
+            cast(list[sympy.Symbol], list_of_symbols(parameter_values)),
             strict=True,
         )
     )
@@ -125,6 +129,6 @@ def to_symbolic_model(model: Model) -> SymbolicModel:
         parameters=parameters,
         eqs=[eqs[i] for i in cache.var_names],
         initial_conditions=model.get_initial_conditions(),
-        parameter_values=model.get_parameter_values(),
+        parameter_values=parameter_values,
         external=data | surrogates,
     )
